@@ -3,5 +3,5 @@ NEXT Next
 CONSTANTS
   Alpha = {0, 97, 255}
   MaxLen = 4
-INVARIANTS SetLaws TokLaws StrLaws
+INVARIANTS RunLaws SetLaws TokLaws StrLaws
 CHECK_DEADLOCK FALSE
